@@ -72,13 +72,25 @@ def build_series(cfg):
         if cfg.get("duplicate_rows"):
             k = max(1, T // 3)
             x[T - k:] = x[:k]
+        if cfg.get("quantise"):
+            # a coarse sensor (a few integer levels): many stacked windows are bit-identical and land in different clusters
+            x = np.round(x / float(cfg["quantise"])) * float(cfg["quantise"])
         arr = x * scales + float(cfg.get("data_offset") or 0.0)
         if cfg.get("reuse_buffers"):
             from harness import buffers
             arr = buffers.reuse(f"e2e.series.{si}", arr)       # same array object as in earlier runs of this process
         out.append(arr)
     cfg.pop("_last_reg", None)
-    if cfg.get("series_as_views") and len(out) >= 2:
+    if cfg.get("series_as_views") == "interleaved":
+        # recordings multiplexed row by row in one buffer (series i is rows i, i+n, i+2n, ...): contiguous within a row, strided
+        # between rows; a single series is interleaved with a decoy
+        n = max(2, len(out))
+        L = max(len(a) for a in out)
+        owner = np.full((L * n, out[0].shape[1]), -7.25, dtype=out[0].dtype)
+        for i, a in enumerate(out):
+            owner[i::n][:len(a)] = a
+        out = [owner[i::n][:len(a)] for i, a in enumerate(out)]
+    elif cfg.get("series_as_views") and len(out) >= 2:
         # pieces of one recording handed over in another order than they lie in memory (row-slice views of one owner)
         rngv = np.random.default_rng(cfg["data_seed"] + 7)
         order = [int(i) for i in rngv.permutation(len(out))]
@@ -217,9 +229,53 @@ class SyncPool:
     def apply_async(self, func, args=(), kwds=None, callback=None, error_callback=None):
         self.submitted += 1
         try:
-            return _Done(value=func(*args, **(kwds or {})))
+            value = func(*args, **(kwds or {}))
         except Exception as e:          # delivered at .get(), like the real pool
+            if error_callback is not None:
+                error_callback(e)
             return _Done(exc=e)
+        if callback is not None:
+            callback(value)
+        return _Done(value=value)
+
+    # the rest of the multiprocessing.Pool interface, so that library code which uses another submission call than
+    # apply_async meets a pool that behaves like one (everything runs at submission, in order)
+    def apply(self, func, args=(), kwds=None):
+        self.submitted += 1
+        return func(*args, **(kwds or {}))
+
+    def map(self, func, iterable, chunksize=None):
+        items = list(iterable)
+        self.submitted += len(items)
+        return [func(x) for x in items]
+
+    def starmap(self, func, iterable, chunksize=None):
+        items = list(iterable)
+        self.submitted += len(items)
+        return [func(*x) for x in items]
+
+    def imap(self, func, iterable, chunksize=1):
+        return iter(self.map(func, iterable))
+
+    def imap_unordered(self, func, iterable, chunksize=1):
+        return iter(self.map(func, iterable))
+
+    def _async(self, compute, callback, error_callback):
+        try:
+            value = compute()
+        except Exception as e:
+            if error_callback is not None:
+                error_callback(e)
+            return _Done(exc=e)
+        if callback is not None:
+            callback(value)
+        return _Done(value=value)
+
+    def map_async(self, func, iterable, chunksize=None, callback=None, error_callback=None):
+        return self._async(lambda: self.map(func, iterable), callback, error_callback)
+
+    def starmap_async(self, func, iterable, chunksize=None, callback=None, error_callback=None):
+        return self._async(lambda: self.starmap(func, iterable), callback, error_callback)
 
     def close(self):
         self.closed = True
@@ -277,6 +333,19 @@ def run(cfg, sync_pool=True, record_admm=True, admm_wrapper=None, series=None, e
     W, K = cfg["W"], cfg["K"]
     if cfg.get("prior_calls_on_same_arrays"):
         _prior_calls_on_same_arrays(series, W)
+    if cfg.get("prior_run_override"):
+        # what a parameter sweep does: the same arrays were clustered a moment ago, in this process, with ONE setting different
+        # (its outcome, even an exception, is of no interest here)
+        prior = dict(cfg)
+        prior.update(cfg["prior_run_override"])
+        prior["prior_run_override"] = None
+        prior["prior_calls_on_same_arrays"] = False
+        try:
+            run(prior, sync_pool=sync_pool, record_admm=False, series=series)
+        except HarnessError:
+            raise
+        except Exception:
+            pass
     nw = cfg["N"] * W
     total_stacked = max(1, sum(max(0, len(s) - W + 1) for s in series))     # (callers that feed the wrong input kind override beta anyway)
     lam = make_lambda(cfg, nw)
